@@ -40,6 +40,8 @@ U1 = "12345678-1234-5678-1234-567812345678"
 SAMPLE = {"str": "x", "date": "2020-01-02", "datetime": "2020-01-02T03:04:05+00:00", "uuid": U1, "int": 5, "num": 1.5, "bool": True,
           "enum_str": "aa", "enum_int": 1, "const": "fixed", "array_str": ["a", "b"], "array_model": [{"a": "x"}], "model": {"a": "x"},
           "union_scalar": 3, "union_model": {"a": "x"}, "any": {"k": 1}, "array_date": ["2020-01-02"]}
+FALSY = {"str": "", "int": 0, "num": 0.0, "bool": False, "array_str": [], "array_model": [], "array_date": [], "any": {},
+         "union_scalar": 0, "model": {}, "union_model": 0}
 BASE = {
     "str": {"type": "string"}, "date": {"type": "string", "format": "date"}, "datetime": {"type": "string", "format": "date-time"},
     "uuid": {"type": "string", "format": "uuid"}, "int": {"type": "integer"}, "num": {"type": "number"}, "bool": {"type": "boolean"},
@@ -304,6 +306,22 @@ def _check_model(ctx, pkg, cells, res):
             if behave._is_ctl(e):
                 raise
             ctx.violation("present.accepted", {**site, "exc": type(e).__name__}, repr(e)[:200])
+        # --- a present but falsy value (0, False, "", [], {}) is still present
+        if c["kind"] in FALSY:
+            inst = dict(base)
+            inst[name] = FALSY[c["kind"]]
+            try:
+                o = H.from_dict(copy.deepcopy(inst))
+                got = getattr(o, name)
+                if got is UNSET or (got is None):
+                    ctx.violation("present.falsy_distinct", site, repr(got))
+                enc = o.to_dict()
+                if name not in enc or not json_eq(enc[name], FALSY[c["kind"]]):
+                    ctx.violation("present.falsy_roundtrip", site, f"{enc.get(name, '<absent>')!r} vs {FALSY[c['kind']]!r}")
+            except BaseException as e:  # noqa: BLE001
+                if behave._is_ctl(e):
+                    raise
+                ctx.violation("present.accepted", {**site, "exc": type(e).__name__, "falsy": True}, repr(e)[:200])
         # --- constructing without the optional argument leaves UNSET (no declared default)
         if not c["required"] and not c["default"]:
             try:
@@ -404,6 +422,47 @@ def _check_params(ctx, pkg, res, cells):
             ctx.violation("absent.not_transmitted", site, name)
         if expect and not sent:
             ctx.violation("present.transmitted", site, name)
+    # --- every parameter given, falsy where the kind has a falsy value: all must be transmitted
+    kwargs2 = {}
+    for (loc, name), c in wire.items():
+        py = er.pynames.get((loc, name))
+        v = FALSY.get(c["kind"], SAMPLE[c["kind"]])
+        if c["kind"] == "array_str":
+            v = SAMPLE[c["kind"]]
+        if loc == "cookie" and c["kind"] not in ("str", "enum_str"):
+            continue
+        if loc == "header" and c["nullable"] != "none" and c["kind"] != "str" and "KF-C10-01" in _live:
+            continue
+        ann = sig.parameters[py].annotation
+        kwargs2[py] = http.to_python(v, _ir(c["kind"]), {}, lambda s, a=ann: http.enum_class_from_annotation(a))
+    for (loc, name), c in wire.items():
+        py = er.pynames.get((loc, name))
+        if py not in kwargs2 and c["required"] and not c["default"]:
+            return
+    cap = http.Capture()
+    client = http.make_client(pkg, cap, secured=False)
+    try:
+        mod.sync_detailed(client=client, **kwargs2)
+    except BaseException as e:  # noqa: BLE001
+        if behave._is_ctl(e):
+            raise
+        ctx.violation("call.raises", {"pos": "params", "exc": type(e).__name__, "falsy": True}, repr(e)[:200])
+        return
+    finally:
+        http.close_client(client)
+    if not cap.requests:
+        return
+    req = cap.requests[0]
+    q = {k for k, _ in req["query"]}
+    hm = http.header_map(req)
+    ck = http.cookies_of(req)
+    for (loc, name), c in wire.items():
+        py = er.pynames.get((loc, name))
+        if py not in kwargs2:
+            continue
+        sent = (name in q) if loc == "query" else ((name.lower() in hm) if loc == "header" else (name in ck))
+        if not sent:
+            ctx.violation("present.falsy_transmitted", _site(c), f"{name}={kwargs2[py]!r} was not sent")
 
 
 def _ir(kind):
